@@ -101,21 +101,7 @@ def run(chk, w):
             else:
                 chk.ok("C01-ACC", 1)
     chk.floor("send_state_accesses", n, 60)
-    # write callback invocations
-    ncb = 0
-    for key, labs in db.labels.items():
-        c = db.E.ctxs[key]
-        for i in c.fn.calls():
-            if i.callee is None and len(i.args) == 2:
-                src = rules.load_source(c.fn, i.get("fptr"))
-                if src and src[0] == "global" and src[1] in roles["write_cb"]:
-                    for ls in c.inst_states.get(i.id, ()):
-                        ncb += 1
-                        if locks.ls_get(ls, "bidib_send_buffer_mutex") is None:
-                            chk.violation("C01-ACC", c.fn.name, "write-callback", i.loc(), "write callback invoked without bidib_send_buffer_mutex (lockset %s): packets of two flushers can interleave" % locks.ls_str(ls), chain=db.E.chain(c))
-                        else:
-                            chk.ok("C01-ACC", 1, {"callback_call": i.loc(), "held": locks.ls_str(ls)})
-    chk.floor("write_callback_calls", ncb, 3)
+    callback_rule(chk, w, roles, db, "C01-ACC")
 
     # ---- TAB
     chk.rule("C01-TAB", "bidib_crc_array equals the CRC-8 table for x^8+x^5+x^4+1 (reflected, 0x8C) and is the only table indexed for CRC")
@@ -342,6 +328,26 @@ def run(chk, w):
         intervals = None
     if intervals is not None:
         intervals.check_send_bounds(chk, w, roles)
+
+
+def callback_rule(chk, w, roles, db, rid):
+    """every invocation of the user's write callback holds the send-buffer mutex: packets of concurrent flushers are serialised (shared with C10)"""
+    # write callback invocations
+    ncb = 0
+    for key, labs in db.labels.items():
+        c = db.E.ctxs[key]
+        for i in c.fn.calls():
+            if i.callee is None and len(i.args) == 2:
+                src = rules.load_source(c.fn, i.get("fptr"))
+                if src and src[0] == "global" and src[1] in roles["write_cb"]:
+                    for ls in c.inst_states.get(i.id, ()):
+                        ncb += 1
+                        if locks.ls_get(ls, "bidib_send_buffer_mutex") is None:
+                            chk.violation(rid, c.fn.name, "write-callback", i.loc(), "write callback invoked without bidib_send_buffer_mutex (lockset %s): packets of two flushers can interleave" % locks.ls_str(ls), chain=db.E.chain(c))
+                        else:
+                            chk.ok(rid, 1, {"callback_call": i.loc(), "held": locks.ls_str(ls)})
+    chk.floor("write_callback_calls", ncb, 3)
+
 
 
 def nodrop_rule(chk, w, roles, rid):
